@@ -145,6 +145,13 @@ def render_pattern(d):
         if tok[0] == "lit":
             parts.append(tok[1])
             continue
+        if tok[0] == "opt":
+            _, name, ftype, lit = tok
+            rx = {"d": r"\d+", "f": r"\d+\.\d+", "w": r"[A-H]+", "": r"[K-P]+", "Color": r"[A-Z]+"}[ftype]
+            grp = "(?P<%s>%s)" % (name, rx) if name else "(%s)" % rx
+            # the optional part swallows its own leading blank: attach to the previous token
+            parts[-1] = parts[-1] + "(?: %s %s)?" % (lit, grp)
+            continue
         _, name, ftype = tok
         if d["matcher"] == "re":
             rx = {"d": r"\d+", "f": r"\d+\.\d+", "w": r"[A-H]+",
@@ -163,6 +170,9 @@ def def_regex(d):
     for tok in d["tokens"]:
         if tok[0] == "lit":
             parts.append(re.escape(tok[1]))
+        elif tok[0] == "opt":
+            rx = {"d": r"\d+", "f": r"\d+\.\d+", "w": r"[A-H]+", "": r"[K-P]+", "Color": r"[A-Z]+"}[tok[2]]
+            parts[-1] = parts[-1] + "(?: %s (%s))?" % (re.escape(tok[3]), rx)
         else:
             ftype = tok[2]
             if d["matcher"] == "re":
@@ -194,6 +204,13 @@ def gen_steplib(rng, size):
                 ftype = "w"
             named = rng.random() < 0.7
             toks.append(["fld", ("p%d" % j) if named else "", ftype])
+        if matcher == "re" and rng.random() < 0.5:
+            # optional regex group(s); an anonymous optional group before another anonymous group
+            # makes positional order observable
+            toks.append(["opt", "" if rng.random() < 0.6 else "q0", rng.choice(["d", "w"]), "maybe"])
+            if rng.random() < 0.6:
+                toks.append(["lit", "then"])
+                toks.append(["fld", "" if rng.random() < 0.7 else "p9", rng.choice(["d", "w"])])
         if rng.random() < 0.5:
             toks.append(["lit", rng.choice(["units", "done", "ok"])])
         defs.append({"id": "d%d" % i, "type": dtype, "matcher": matcher,
@@ -202,7 +219,7 @@ def gen_steplib(rng, size):
     # deliberate overlap: a generic catch-all behind a type-specific one
     if size == "rich" and rng.random() < 0.6:
         base = rng.choice(defs)
-        if base["type"] != "step":
+        if base["type"] != "step" and not any(t[0] == "opt" for t in base["tokens"]):
             toks = []
             for tok in base["tokens"]:
                 toks.append(list(tok))
@@ -228,6 +245,10 @@ def instantiate(rng, d, placeholder=None):
     for tok in d["tokens"]:
         if tok[0] == "lit":
             parts.append(tok[1])
+        elif tok[0] == "opt":
+            if rng.random() < 0.5:
+                parts.append(tok[3])
+                parts.append(gen_value(rng, tok[2]).replace(" ", ""))
         elif placeholder and not used and tok[2] == "" and d["matcher"] != "re":
             parts.append("<%s>" % placeholder)
             used = True
@@ -351,7 +372,23 @@ def gen_outline(rng, lib, sid, opts):
     name = "ol %s" % sid
     if rng.random() < 0.5:
         name += " <%s>" % rng.choice(cols)
-    return {"kind": "outline", "id": sid, "name": name, "tags": tags,
+    mut = None
+    if opts.get("table_mutation") and rng.random() < 0.5:
+        e = rng.randrange(len(examples))
+        if rng.random() < 0.6:
+            mut = {"what": "add_row", "e": e, "cells": ["n%d" % rng.randint(0, 9) for _ in examples[e]["headings"]]}
+        else:
+            # a column that exists only after table.add_column(): references to it must be
+            # substituted in the rebuilt expansion
+            mut = {"what": "add_column", "e": e, "column": "cz", "value": "z%d" % rng.randint(0, 9)}
+            r = rng.random()
+            if r < 0.5:
+                name += " <cz>"
+            elif steps:
+                st = rng.choice(steps)
+                st["doc"] = (st.get("doc") or "line x") + "\nnew <cz>"
+                st.pop("table", None)
+    return {"kind": "outline", "id": sid, "name": name, "tags": tags, "_mut": mut,
             "steps": steps, "examples": examples,
             "kwd": rng.choice(["Scenario Outline", "Scenario Outline", "Scenario Template"])}
 
@@ -403,12 +440,15 @@ def gen_feature(rng, lib, fi, opts):
 # ---------------------------------------------------------------------------
 # rendering (records the 1-based line of every entity)
 # ---------------------------------------------------------------------------
-def render_table(lines, indent, headings, rows):
+def render_table(lines, indent, headings, rows, rng=None, p_gap=0.0):
     def esc(c):
         return c.replace("\\", "\\\\").replace("|", "\\|")
     lines.append(indent + "| " + " | ".join(esc(h) for h in headings) + " |")
     out = []
     for row in rows:
+        if rng is not None and rng.random() < p_gap:
+            # comment / blank lines are legal between the rows of a table
+            lines.append(rng.choice(["", indent + "# a comment between rows", "# c"]))
         lines.append(indent + "| " + " | ".join(esc(c) for c in row) + " |")
         out.append(len(lines))
     return out
@@ -425,7 +465,7 @@ def render_steps(lines, steps, indent, rng, linemap, owner):
                 lines.append((indent + "  " + dl) if dl else "")
             lines.append(indent + "  " + q)
         if st.get("table"):
-            render_table(lines, indent + "  ", st["table"]["headings"], st["table"]["rows"])
+            render_table(lines, indent + "  ", st["table"]["headings"], st["table"]["rows"], rng, 0.05)
 
 
 def noise(lines, rng, p):
@@ -484,7 +524,7 @@ def render_feature(feat, rng, p_noise=0.15):
                     tagline(ex["tags"], indent + "  ")
                     lines.append(indent + "  %s: %s" % (ex["kwd"], ex["name"]))
                     lm["%s.E%d" % (it["id"], e)] = len(lines)
-                    rl = render_table(lines, indent + "    ", ex["headings"], ex["rows"])
+                    rl = render_table(lines, indent + "    ", ex["headings"], ex["rows"], rng, p_noise * 0.7)
                     for r, ln in enumerate(rl):
                         lm["%s.E%d.R%d" % (it["id"], e, r)] = ln
 
@@ -680,6 +720,7 @@ def gen_world(seed, overrides=None, profile=None):
                 max_items=so["max_items"], min_steps=so["min_steps"],
                 max_steps=so["max_steps"])
     opts["hostile_names"] = bool(dims.get("hostile"))
+    opts["table_mutation"] = bool(dims.get("table_mutation"))
     opts.update(dims.get("opts", {}))
     nfeat = rng.randint(*so["nfeat"])
     feats = [gen_feature(rng, lib, i, opts) for i in range(nfeat)]
@@ -810,17 +851,14 @@ def gen_script(rng, world, dims):
                 if it["kind"] == "rule":
                     outs += [x for x in it["items"] if x["kind"] == "outline"]
             for ol in outs:
-                if rng.random() < 0.5:
-                    e = rng.randrange(len(ol["examples"]))
-                    ex = ol["examples"][e]
+                mut = ol.get("_mut")
+                if mut:
                     key = "hook|before_feature|%s||0" % feat["id"]
                     ent = script.setdefault(key, {"acts": [], "out": {"kind": "ok"}})
-                    if rng.random() < 0.7:
-                        ent["acts"].append({"a": "examples_table", "what": "add_row", "outline": ol["id"], "e": e,
-                                            "cells": ["n%d" % rng.randint(0, 9) for _ in ex["headings"]]})
-                    else:
-                        ent["acts"].append({"a": "examples_table", "what": "add_column", "outline": ol["id"], "e": e,
-                                            "column": "cz", "value": "z%d" % rng.randint(0, 9)})
+                    act = dict(mut)
+                    act["a"] = "examples_table"
+                    act["outline"] = ol["id"]
+                    ent["acts"].append(act)
         for key, ent in list(script.items()):
             if key.startswith("step|") and rng.random() < 0.3:
                 ent["acts"].append({"a": "step_table", "what": rng.choice(["add_row", "cell"])})
